@@ -3,7 +3,7 @@
 //! TLC (spec/Tables.tla) judges every row.  No expectation is computed here; the only
 //! comparisons are `==` between two results of the real code (flags).
 use crate::alloc::guarded;
-use crate::sut::Foreign;
+use crate::basics::Foreign;
 use helgoboss_midi::*;
 use std::convert::TryFrom;
 pub use crate::chunks::{ChunkWriter, Lcg};
@@ -272,7 +272,7 @@ pub fn short_row(s: u8, d1: u8, d2: u8) -> Vec<i64> {
     let vec_s = obs(&mut acc, &st);
     let vec_f = obs(&mut acc, &fo);
     let vec_ftb = obs(&mut acc, &ftb);
-    let mut flags = [0i64; 12];
+    let mut flags = [0i64; 16];
     flags[0] = (vec_f == vec_r) as i64;
     flags[1] = (vec_ftb == vec_r) as i64;
     flags[2] = flag(&mut acc, || raw.to_other::<StructuredShortMessage>() == st);
@@ -296,6 +296,13 @@ pub fn short_row(s: u8, d1: u8, d2: u8) -> Vec<i64> {
     let (rt2_bytes, rt2_eq) = rt2.map(|(b, e)| (b, e as i64)).unwrap_or(([PANIC; 3], PANIC));
     flags[10] = rt2_eq;
     flags[11] = flag(&mut acc, || raw.to_other::<RawShortMessage>() == raw && Foreign::from_other(&raw) == fo);
+    // third-party implementors as SOURCE of conversions, towards every implementation
+    flags[12] = flag(&mut acc, || fo.to_other::<RawShortMessage>() == raw && RawShortMessage::from_other(&fo) == raw);
+    flags[13] = flag(&mut acc, || ftb.to_other::<RawShortMessage>() == raw && RawShortMessage::from_other(&ftb) == raw);
+    flags[14] = flag(&mut acc, || fo.to_other::<ForeignTb>() == ftb && ftb.to_other::<Foreign>() == fo
+        && Foreign::from_other(&ftb) == fo && ForeignTb::from_other(&fo) == ftb);
+    flags[15] = flag(&mut acc, || StructuredShortMessage::from_other(&fo) == st && StructuredShortMessage::from_other(&ftb) == st
+        && st.to_other::<ForeignTb>().to_structured() == st);
     let into = acc.gv(|| {
         let b: (u8, U7, U7) = raw.into();
         [b.0 as i64, b.1.get() as i64, b.2.get() as i64]
@@ -351,7 +358,16 @@ pub fn table_short(dir: &str, tier: &str, seed: u64, per: usize) -> (usize, u64)
 pub fn structured_row(c: [i64; 4]) -> Vec<i64> {
     let mut acc = Acc { allocs: 0 };
     let mut row: Vec<i64> = c.to_vec();
-    let x = structured_of(c);
+    let x = match guarded(|| structured_of(c)) {
+        (Some(x), a) => {
+            acc.allocs += a;
+            x
+        }
+        (None, _) => {
+            row.push(PANIC);
+            return row;
+        }
+    };
     let vec_x = obs(&mut acc, &x);
     let raw_bytes = acc.gv(|| bytes3(&x.to_other::<RawShortMessage>()));
     let f1 = flag(&mut acc, || x.to_other::<RawShortMessage>().to_other::<StructuredShortMessage>() == x);
